@@ -126,8 +126,8 @@ SPass == /\ IsEvent("pass")
          /\ UNCHANGED <<g, b>>
 
 \* ------------------------------------------------------------------ frequencies
-\* 1 - 1e-9 quantiles of chi-square with 1..5 degrees of freedom, rounded up
-Crit(dof) == IF dof = 1 THEN 38 ELSE IF dof = 2 THEN 42 ELSE IF dof = 3 THEN 46 ELSE IF dof = 4 THEN 49 ELSE 52
+\* 1 - 1e-9 quantiles of chi-square with 1..11 degrees of freedom, rounded up
+Crit(dof) == <<38, 42, 46, 49, 52, 54, 56, 59, 61, 63, 66>>[dof]
 \* integer weights of a rational distribution over a common denominator W
 Lcm(a, c) == (a \div GCD(a, c)) * c
 RECURSIVE LcmSeq(_)
@@ -140,13 +140,13 @@ FreqKeyOK(key, counts) ==
       n == SumSeq(counts)
       support == {j \in 1..Len(w) : iw[j] > 0}
       dof == Cardinality(support) - 1
-  IN \/ n < 200 \/ W > 16 \/ dof > 5 \/ dof < 1
+  IN \/ n < 200 \/ W > 20 \/ dof > 11 \/ dof < 1
      \/ /\ \A j \in 1..Len(w) : iw[j] = 0 => counts[j] = 0
         /\ SumSeq([j \in 1..Len(w) |->
                      IF iw[j] = 0 THEN 0
                      ELSE ((W * counts[j] - n * iw[j]) * (W * counts[j] - n * iw[j])) \div iw[j]])
              <= Crit(dof) * n * W
-Tested(t) == {key \in DOMAIN t : SumSeq(t[key]) >= 200 /\ LcmSeq(key[2]) <= 16}
+Tested(t) == {key \in DOMAIN t : SumSeq(t[key]) >= 200 /\ LcmSeq(key[2]) <= 20}
 SFreq == /\ IsEvent("freq")
          /\ (\A key \in DOMAIN tally : FreqKeyOK(key, tally[key])) = TRUE
          /\ (\A key \in DOMAIN pairs : PairKeyOK(key, pairs[key])) = TRUE
